@@ -38,6 +38,7 @@ Definition cres_eqb (a b : cres str) : bool :=
   match a, b with COk x, COk y => str_eqb x y | CValueError, CValueError => true | _, _ => false end.
 Definition is_xml_ws (c : N) : bool := N.eqb c 32 || N.eqb c 9 || N.eqb c 10 || N.eqb c 13.
 Definition hidden (t : str) : bool := existsb (str_eqb t) [TAG_STYLE; TAG_LINK; TAG_HEAD; TAG_SCRIPT].
+Definition is_head (t : str) : bool := str_eqb t TAG_HEAD.
 """.replace("NAME_INLINE", E.s("inline_whitespace")).replace("NAME_ALL", E.s("all_whitespace")).replace(
     "NAME_US", E.s("underscores")).replace("TAG_STYLE", E.s("style")).replace("TAG_LINK", E.s("link")).replace(
     "TAG_HEAD", E.s("head")).replace("TAG_SCRIPT", E.s("script"))
@@ -117,25 +118,42 @@ def tree_term(node):
     return f"(Elem {E.s(tag)} {E.s(text)} [{ks}])"
 
 
-def tree_visible(node):
-    """expected visible text nodes, from the generator's own knowledge"""
+def tree_visible(node, in_head=False):
+    """expected visible text nodes, from the generator's own knowledge: nothing inside script/style/head
+    (at any depth for head: a page's <title> is not visible text)"""
     tag, text, kids = node
     out = []
+    in_head = in_head or tag == "head"
 
     def own(s):
-        if tag not in ("style", "link", "head", "script") and s.strip(" \t\n\r") != "":
+        if not in_head and tag not in ("style", "link", "script") and s.strip(" \t\n\r") != "":
             out.append(s)
 
     own(text)
     for c, t in kids:
-        out.extend(tree_visible(c))
+        out.extend(tree_visible(c, in_head))
         own(t)
     return out
 
 
+def gen_page(rng):
+    """a whole document: <html><head> title / style / script / meta </head><body> tree </body></html>"""
+    head_kids = []
+    for _ in range(rng.choice([0, 1, 2, 3])):
+        k = rng.choice(["title", "title", "style", "script", "meta"])
+        if k == "meta":
+            continue            # void element, rendered separately below
+        txt = gen_text(rng, k != "title") or rng.choice(["T", "My Title 1 U.S. 1"])
+        if k == "title":
+            txt = txt.replace("<", "").replace(">", "").replace("&", "")
+        head_kids.append(((k, txt, []), rng.choice(["", "\n", " "])))
+    body = ("body", "", [(gen_tree(rng), "")])
+    return ("html", "", [(("head", "", head_kids), ""), (body, "")])
+
+
 def tree_nontrivial(node):
     tag, text, kids = node
-    return tag in HIDDEN or (text != "" and text.strip(" \t\n\r") == "") or any(tree_nontrivial(c) for c, _ in kids)
+    return tag in HIDDEN or tag == "head" or (text != "" and text.strip(" \t\n\r") == "") or any(tree_nontrivial(c) for c, _ in kids)
 
 
 def run(ctx):
@@ -221,8 +239,9 @@ def run(ctx):
 
     # ---- stream 4: element trees for the html cleaner
     cases = []
-    for _ in range(1500 if thorough else 300):
-        tree = gen_tree(rng)
+    for k_ in range(1500 if thorough else 300):
+        # every fourth case is a whole page with a <head> (title, style, script) in front of the body
+        tree = gen_page(rng) if k_ % 4 == 3 else gen_tree(rng)
         src = render(tree)
         try:
             out = clean.html(src)
@@ -238,4 +257,4 @@ def run(ctx):
                           dict(source=src, got=out, want=want))
         cases.append((tree_term(tree), E.s(out), dict(source=src, impl_output=out)))
     ctx.streams.append("html")
-    core.corr_run(ctx, "html", PRE, "html_clean is_xml_ws hidden", "str_eqb", cases)
+    core.corr_run(ctx, "html", PRE, "html_clean is_xml_ws hidden is_head", "str_eqb", cases)
